@@ -143,6 +143,10 @@ CHUNKINGS = [0]      # number of (stream, chunking) pairs delivered to the real 
 
 
 def impl(case) -> str:
+    if case["kind"] == "send":
+        from harness import c16send
+        CHUNKINGS[0] += 1
+        return c16send.impl(case)
     if case["kind"] in APP_KINDS:
         from harness import c16app
         return c16app.impl(case, CHUNKINGS)
@@ -225,6 +229,9 @@ def reference(kind, mx, delim, stream):
 
 
 def oracle(case, obs):
+    if case["kind"] == "send":
+        from harness import c16send
+        return c16send.oracle(case, obs)
     if case["kind"] in APP_KINDS:
         from harness import c16app
         return c16app.oracle(case, obs)
@@ -413,8 +420,10 @@ def gen(rng, tier):
         for _ in range(3):
             cases.append(mk(kind, mx, delim, random_split(rng, s)))
     # 4. receivers with a reacting application (raw mode, mode switches, pause/resume, recvd)
-    from harness import c16app
+    from harness import c16app, c16send
     cases += c16app.gen(rng, tier)
+    # 5. the sending side: sendLine / sendString, wire form and sender -> receiver round trip
+    cases += c16send.gen(rng, tier)
     return cases
 
 
@@ -434,8 +443,8 @@ def corpus():
         mk("int8", 3, b"", [b"\x03abc\x04abcd"]),
         mk("int32", 5, b"", [b"\x00\x00", b"\x00\x05hel", b"lo\xff\xff\xff\xffx"]),
     ]
-    from harness import c16app
-    out += c16app.corpus()
+    from harness import c16app, c16send
+    out += c16app.corpus() + c16send.corpus()
     d = os.path.join(os.path.dirname(os.path.dirname(os.path.abspath(__file__))), "corpus", "C16")
     if os.path.isdir(d):
         for f in sorted(os.listdir(d)):
@@ -450,6 +459,9 @@ def corpus():
 
 
 def to_coq(case):
+    if case["kind"] == "send":
+        from harness import c16send
+        return c16send.to_coq(case)
     if case["kind"] in APP_KINDS:
         from harness import c16app
         return c16app.to_coq(case)
@@ -478,6 +490,10 @@ def to_coq_plain(case):
 
 
 def shrink(case):
+    if case["kind"] == "send":
+        from harness import c16send
+        yield from c16send.shrink(case)
+        return
     if case["kind"] in APP_KINDS:
         from harness import c16app
         yield from c16app.shrink(case)
@@ -498,6 +514,8 @@ def shrink(case):
 
 
 def histogram(case, obs):
+    if case["kind"] == "send":
+        return "send/" + case["proto"]
     return case["kind"] + ("/" + case["family"] if "family" in case else "/closed" if obs.endswith("closed") else "/open")
 
 
@@ -507,7 +525,7 @@ SPEC = Spec(
     coq_header="From TwLib Require Import PyBytes Seg SegApp.\nFrom C16 Require Import Model ModelApp Run RunApp.",
     coq_fn="run_any",
     to_coq=to_coq,
-    nontrivial=lambda c, o: ("family" in c or len(c.get("chunks", c.get("ops", []))) > 1) and not o.endswith("* |open") and o != " |open",
+    nontrivial=lambda c, o: ("family" in c or c["kind"] == "send" or len(c.get("chunks", c.get("ops", []))) > 1) and not o.endswith("* |open") and o != " |open",
     extra=lambda ctx: {"chunkings_run": CHUNKINGS[0]},
     histogram=histogram,
     rule="per receiver (LineOnlyReceiver, LineReceiver line mode, Int8/16/32StringReceiver, NetstringReceiver): "
